@@ -56,4 +56,51 @@ pub fn run(cx: &mut Ctx) {
             }
         });
     }
+    // ancilla initialisation (a qubit's first operation) and post-selection (its last): the diagram loses that input / output, the map is the
+    // unitary of the remaining gates with the ancilla inputs fixed to |0> and the post-selected outputs projected on <0|.  Gates after a
+    // post-selection act on the other qubits only (SWAPs before it move the wires around).
+    let mut cases: Vec<(Circuit, Circuit, Vec<usize>, Vec<usize>)> = vec![];
+    for _ in 0..60 * crate::scale() {
+        let n = 1 + r.below(3) as usize;
+        let anc: Vec<usize> = (0..n).filter(|_| r.below(3) == 0).collect();
+        let post: Vec<usize> = (0..n).filter(|_| r.below(3) == 0).collect();
+        let mut full = Circuit::new(n); let mut core = Circuit::new(n);
+        for &a in &anc { full.push(Gate::new(GType::InitAncilla, vec![a])); }
+        let l1 = r.below(6); for _ in 0..l1 { let g = random_gate(&mut r, n); full.push(g.clone()); core.push(g); }
+        for &p in &post { full.push(Gate::new(GType::PostSelect, vec![p])); }
+        let rest: Vec<usize> = (0..n).filter(|q| !post.contains(q)).collect();
+        if !rest.is_empty() {
+            let l2 = r.below(4);
+            for _ in 0..l2 {
+                let g = random_gate(&mut r, n);
+                if g.qs.iter().all(|q| rest.contains(q)) { full.push(g.clone()); core.push(g); }
+            }
+        }
+        cases.push((full, core, anc, post));
+    }
+    for (name, simplify, postselect) in [("plain", false, false), ("simplify_while_building", true, false), ("postselected_ccz", false, true)] {
+        cx.check(&format!("to_graph_ancilla_postselect_{}", name), |cb| {
+            for (full, core, anc, post) in &cases {
+                let res = (|| {
+                    let n = full.num_qubits();
+                    let u = unitary(core, n)?;
+                    let g: Graph = guard(|| full.to_graph_with_options(simplify, postselect))?;
+                    let ins: Vec<usize> = (0..n).filter(|q| !anc.contains(q)).collect();
+                    let outs: Vec<usize> = (0..n).filter(|q| !post.contains(q)).collect();
+                    if g.inputs().len() != ins.len() || g.outputs().len() != outs.len() { return Err(format!("{} inputs and {} outputs, expected {} and {}", g.inputs().len(), g.outputs().len(), ins.len(), outs.len())); }
+                    let t = guard(|| g.to_tensorf())?;
+                    for i in 0..1usize << ins.len() { for o in 0..1usize << outs.len() {
+                        let mut ix: Vec<usize> = (0..ins.len()).map(|k| i >> k & 1).collect(); ix.extend((0..outs.len()).map(|k| o >> k & 1));
+                        let got: C = t[&ix[..]];
+                        let fi: usize = ins.iter().enumerate().map(|(k, q)| (i >> k & 1) << q).sum();
+                        let fo: usize = outs.iter().enumerate().map(|(k, q)| (o >> k & 1) << q).sum();
+                        let want = u[fi][fo];
+                        if (got - want).norm() > 1e-9 { return Err(format!("entry in={:b} out={:b} over the remaining qubits: the diagram gives {}, the gate matrices give {}", i, o, got, want)); }
+                    } }
+                    Ok(())
+                })();
+                cb(&|| format!("{} qubits {:?}", full.num_qubits(), full.gates.iter().map(|g| format!("{:?}{:?}({})", g.t, g.qs, g.phase)).collect::<Vec<_>>()), res);
+            }
+        });
+    }
 }
